@@ -32,6 +32,7 @@ type dumper struct {
 	info    *types.Info // current package info (or clause info)
 	pkg     *types.Package
 	errors  []string
+	loopIdx map[ast.Node]int // loop statement -> 1-based ordinal within its function (contract clauses name loops by it)
 }
 
 func main() {
@@ -169,6 +170,10 @@ func (d *dumper) dumpPackage(p *packages.Package) map[string]any {
 			case *ast.FuncDecl:
 				key := funcKey(dd)
 				funcDecls[key] = dd
+				d.loopIdx = map[ast.Node]int{}
+				for i, l := range collectLoops(dd) {
+					d.loopIdx[l] = i + 1
+				}
 				n := d.node(dd)
 				n["file"] = fname
 				n["key"] = key
@@ -615,6 +620,9 @@ func (d *dumper) node(n ast.Node) map[string]any {
 		if tv, ok := d.info.Types[x.X]; ok {
 			out["xt"] = d.typeID(tv.Type)
 		}
+	}
+	if idx, ok := d.loopIdx[n]; ok {
+		out["loop"] = idx
 	}
 	return out
 }
